@@ -176,7 +176,7 @@ func c12Exec(x *Ctx) {
 			rt.YieldUntil(rt.SiteActor, func() bool { return allReplied(ss) || peer.EOF })
 			// optionally leave requests outstanding (parked) across the second Tversion
 			for i := 0; i < int(c.cfg("heldat")); i++ {
-				peer.Write(&Msg{Type: Tread, Tag: uint16(400 + i), Fid: 1, Offset: 999, Count: 5})
+				peer.Write(&Msg{Type: Tread, Tag: uint16(400 + i), Fid: 1, Offset: 999, Count: uint32(min64(nm-24, 3000))}) // their replies would not fit the msize agreed next
 			}
 			if c.cfg("heldat") > 0 {
 				rt.YieldUntil(rt.SiteActor, func() bool { return len(fs.HeldInvs()) >= int(c.cfg("heldat")) || peer.EOF })
